@@ -1,5 +1,127 @@
-"""Kani units: loop-free full-domain harnesses (complete) and heap-free stub-environment units (bounded)."""
+"""Kani units: loop-free full-domain harnesses (complete) and heap-free stub-environment units (bounded).
+
+A unit lives in /verif/kani/<unit>/ (Cargo.toml, src/main.rs = stubs + harnesses, unit.json).  The real function
+text is cut out of /repo's working tree on every run (T1-T3 only: item selected by name, attributes dropped) into
+the file the crate `include!`s, so what CBMC executes is the code that runs.
+"""
+import json
+import os
+import re
+import shutil
+import subprocess
+import time
+
+from . import rustscan as rs
+
+VERIF = os.path.dirname(os.path.dirname(os.path.abspath(__file__)))
+REPO = os.environ.get("VERIF_REPO", "/repo")
+
+
+def extract_item(repo, rel, sel, within=None, methods=None):
+    p = os.path.join(repo, rel)
+    if not os.path.exists(p):
+        raise RuntimeError("lost anchor: %s missing" % rel)
+    txt = open(p).read()
+    masked = rs.mask(txt)
+    items = rs.list_items(masked, 0, len(masked))
+    if within:
+        holders = [it for it in items if it.kind == "impl" and (it.name == within or it.name.startswith(within + " "))]
+        pool = []
+        for h in holders:
+            pool += rs.list_items(masked, h.body_open + 1, h.body_close)
+    else:
+        pool = items
+    kind, _, name = sel.partition(" ")
+    found = [it for it in pool if it.kind == kind and it.name == name]
+    if len(found) != 1:
+        raise RuntimeError("lost anchor: `%s` in %s: %d matches" % (sel, rel, len(found)))
+    it = found[0]
+    line = txt.count("\n", 0, it.start) + 1
+    return txt[it.start:it.end], line
+
+
+def parse_kani_output(out):
+    res = {"status": "UNKNOWN", "failed": [], "covers": None, "checks": None}
+    m = re.search(r"VERIFICATION:- (SUCCESSFUL|FAILED)", out)
+    if m:
+        res["status"] = m.group(1)
+    for fm in re.finditer(r"Failed Checks: (.*)\n\s*File: \"([^\"]*)\", line (\d+), in (\S+)", out):
+        res["failed"].append(dict(description=fm.group(1).strip(), file=fm.group(2), line=int(fm.group(3)), function=fm.group(4)))
+    cm = re.search(r"\*\* (\d+) of (\d+) cover properties satisfied", out)
+    if cm:
+        res["covers"] = (int(cm.group(1)), int(cm.group(2)))
+    sm = re.search(r"\*\* (\d+) of (\d+) failed", out)
+    if sm:
+        res["checks"] = dict(failed=int(sm.group(1)), total=int(sm.group(2)))
+    if re.search(r"unwinding assertion", out) and any("unwinding" in f["description"] for f in res["failed"]):
+        res["unwinding_failed"] = True
+    return res
 
 
 def run_kani_unit(name, workdir, tier, prop):
-    return {"undecided": "kani unit %s not built" % name, "harnesses": []}
+    src = os.path.join(VERIF, "kani", name)
+    out = {"harnesses": [], "unit": name}
+    if not os.path.isdir(src):
+        out["undecided"] = "kani unit %s not present" % name
+        return out
+    if shutil.which("cargo-kani") is None and shutil.which("kani") is None:
+        out["undecided"] = "kani not installed"
+        return out
+    cfg = json.load(open(os.path.join(src, "unit.json")))
+    dst = os.path.join(workdir, "kani_" + name)
+    if os.path.exists(dst):
+        shutil.rmtree(dst)
+    shutil.copytree(src, dst)
+    out["extracted"] = []
+    try:
+        for e in cfg.get("extract", []):
+            text, line = extract_item(REPO, e["file"], e["sel"], within=e.get("within"))
+            for a, b in e.get("replace", []):
+                text = text.replace(a, b)
+            with open(os.path.join(dst, e["out"]), "w") as f:
+                f.write(e.get("prefix", "") + text + e.get("suffix", "") + "\n")
+            out["extracted"].append(dict(file=e["file"], item=e["sel"], line=line))
+    except RuntimeError as ex:
+        out["undecided"] = str(ex)
+        return out
+    env = dict(os.environ)
+    env["CARGO_NET_OFFLINE"] = "true"
+    env["CARGO_TARGET_DIR"] = os.path.join(dst, "target")
+    base_cmd = ["cargo", "kani"] + cfg.get("kani_args", [])
+    out["cmd"] = " ".join(base_cmd) + " --harness <h>  (crate /verif/kani/%s, function text extracted from /repo)" % name
+    for hname, h in cfg["harnesses"].items():
+        if prop not in h.get("props", [prop]):
+            continue
+        if h.get("tier") == "thorough" and tier != "thorough":
+            continue
+        t0 = time.time()
+        cmd = base_cmd + ["--harness", hname] + h.get("args", [])
+        entry = dict(name=hname, bound=h.get("bound", ""), complete=h.get("complete", False))
+        try:
+            p = subprocess.run(cmd, cwd=dst, env=env, capture_output=True, text=True, timeout=h.get("timeout", 900))
+            text = p.stdout + p.stderr
+        except subprocess.TimeoutExpired:
+            entry.update(status="TIMEOUT", wall_s=round(time.time() - t0, 1))
+            out["harnesses"].append(entry)
+            out["undecided"] = "kani harness %s timed out after %ss" % (hname, h.get("timeout", 900))
+            subprocess.run("pkill -9 cbmc; pkill -9 kani-driver", shell=True)
+            continue
+        r = parse_kani_output(text)
+        entry.update(status=r["status"], failed=r["failed"], checks=r["checks"], wall_s=round(time.time() - t0, 1),
+                     output_tail=text[-3000:])
+        if r["status"] == "UNKNOWN":
+            # compile error in the stub environment = the function text no longer fits the stubs: undecided
+            errs = re.findall(r"^error.*$", text, re.M)
+            out["undecided"] = "kani harness %s gave no verdict (%s)" % (hname, "; ".join(errs[:3]) or text[-300:].replace("\n", " "))
+        if r.get("unwinding_failed") and len(r["failed"]) and all("unwinding" in f["description"] for f in r["failed"]):
+            entry["status"] = "UNKNOWN"
+            out["undecided"] = "kani harness %s: unwinding bound too small" % hname
+        if h.get("cover"):
+            if r["covers"] is None or r["covers"][0] != r["covers"][1]:
+                entry["status"] = "UNKNOWN" if r["status"] != "FAILED" else entry["status"]
+                if r["status"] != "FAILED":
+                    out["undecided"] = "kani cover harness %s: not every cover property satisfied (%s): vacuous stub environment" % (hname, r["covers"])
+            entry["covers"] = r["covers"]
+        out["harnesses"].append(entry)
+    shutil.rmtree(os.path.join(dst, "target"), ignore_errors=True)
+    return out
